@@ -101,7 +101,6 @@ def qMon (s : QSt) (op : List String) (exts : List (List String)) (obs : Option 
     let cls := (kv toks "class").getD "?"
     let body := dec ((kv toks "body").getD "%")
     let authorised := s.cfgTok != "" && r.vals.headD "" == s.cfgTok
-    let cfgc := if s.cfgTok == "" then "empty" else "set"
     let tc := tokClass s.cfgTok r
     let mk (sig what : String) : Fail := { prop := "C25", sig := sig, what := what }
     let fails :=
@@ -113,7 +112,7 @@ def qMon (s : QSt) (op : List String) (exts : List (List String)) (obs : Option 
         let n := exts.findSome? fun e => match e with
           | ["secrets", _, "=", v] => some v
           | _ => none
-        [mk s!"C25:data-without-valid-token:tmpl={r.tmpl}:cfg={cfgc}:tok={tc}"
+        [mk s!"C25:data-without-valid-token:tmpl={r.tmpl}:tok={if s.cfgTok == "" then "unconfigured" else tc}"
           s!"route answered with data ({n.getD "?"} of the case's secrets in the body) although the request does not carry the configured token"]
       else if cls != "error" then
         [mk s!"C25:unexpected-response:tmpl={r.tmpl}:{(kv toks "st").getD "?"}" s!"neither data nor the token checker's refusal: {o.take 80}"]
@@ -128,10 +127,10 @@ def qMon (s : QSt) (op : List String) (exts : List (List String)) (obs : Option 
           [mk s!"C25:error-reveals-secret:tmpl={r.tmpl}" s!"refusal body contains {leaked.length} of the case's secrets (shard address / rule / config marker)"]
          else []) ++
         (if s.cfgTok.length ≥ 8 && containsSub stripped s.cfgTok then
-          [mk s!"C25:error-reveals-token:tmpl={r.tmpl}:tok={tc}" "refusal body contains the configured token"]
+          [mk s!"C25:error-reveals-token:tmpl={r.tmpl}" "refusal body contains the configured token"]
          else []) ++
         (if ni == some "0" then
-          [mk s!"C25:error-depends-on-configured-token:tmpl={r.tmpl}:tok={tc}" "the same request is answered differently under a different (also non-matching) configured token"]
+          [mk s!"C25:error-depends-on-configured-token:tmpl={r.tmpl}" "the same request is answered differently under a different (also non-matching) configured token"]
          else [])
     (s, fails)
   | _, _ => (s, [])
